@@ -442,6 +442,8 @@ func runC04(w *World, r *Report) {
 	}
 
 	shareRule(w, r, "C04.array-merge-owns-its-array", "merging array-backed readers starts from a slice of its own, never from the first reader's array: spare capacity of a producer's slice is shared by every reader made from it, so two fan-in nodes fed by one array-backed stream would overwrite each other's partner chunks in the stream paradigms only", 1, "C08", "C08.array-alias")
+	shareRule(w, r, "C04.no-data-value-both-paradigms", "the 'no data' value of a node whose input is assembled from mappings is the map the assembling converter expects, in the value form and in the stream form alike (Invoke returns, Stream / Collect / Transform must not fail on a differently typed empty stream)", 1, "C02", "C02.zero-input-fits-handlers")
+	shareRule(w, r, "C04.chunk-tolerance-at-every-depth", "a map key a chunk lacks is tolerated in the chunk-wise paradigms at every element of the source path, as the concatenated value has it under Invoke", 1, "C15", "C15.stream-key-tolerance")
 
 	// ---- role-uniform (generalises in-out-wiring to every struct and function of the module)
 	r.Rule("C04.role-uniform", "within one function, same-role fields (input* / output*, pre* / post*) of one struct are filled from sources of one role; a lone cross-role assignment is a copy within one object", 20)
